@@ -207,7 +207,10 @@ def judge(scn: dict, tr: dict) -> List[dict]:
         fired = any(e.get("op") == "inject" and e["t"] == inj["t"] for e in tr["events"])
         if not fired:
             continue     # the run ended before the instant tau
-        inj_i = next(e["i"] for e in tr["events"] if e.get("op") == "inject" and e["t"] == inj["t"])
+        # (the call itself happens somewhere between the 'inject' and the 'inject_ret' record: a step that begins
+        # in between may or may not have been known to set_event)
+        inj_i = ret["i"] if ret is not None else next(e["i"] for e in tr["events"]
+                                                      if e.get("op") == "inject" and e["t"] == inj["t"])
         if any(e.get("op") == "call" and e.get("kind") == "step" and e["sid"] == inj["sid"] and e["time"] >= inj["t"]
                and e["i"] < inj_i for e in tr["events"]):
             continue     # the receiver had already reached t on its own schedule: t is not a future time for it
